@@ -1,4 +1,5 @@
 import Woodpile.Driver.Util
+import Woodpile.Driver.IterScript
 import Woodpile.Model.SlidingDeque
 import Woodpile.Model.ZDeque
 import Woodpile.Model.DequeTraits
@@ -11,6 +12,8 @@ Model driver for family `sdeque` (C15).  Op vocabulary (values are `u32`s in dec
   wfront v | wback v | wat i v | from v1,v2,... (`SlidingDeque::from(container)`)
   at k <op>   restart from snapshot k (snapshot 0 = the fresh deque), run <op>, record the
               result as snapshot k+1 (see harness/src/fam_sdeque.rs)
+  iterscript <script>   iterator-protocol script (`Model/IterScript.lean`) on the iterator of the
+              `Deref` slice (the list `deref` gives); no state change
 
 Every op answers two identical `O` lines, `vec …` and `small …`: the harness runs the op
 on a `SlidingVec<u32>` and on a `SlidingSmallVec<[u32; 4]>`, and both must behave like
@@ -189,6 +192,12 @@ def stepLine (st : St) (ws : List String) : St × List String :=
           | none => ({ st with cur := none, snaps := st.snaps.take (k + 1) }, ["panic"])
           | some (r, s') => ({ st with cur := some s', snaps := st.snaps.take (k + 1) ++ [s'] }, fmtObs r s')
       | _, _ => (st, ["bad-op"])
+    | ["iterscript", script] =>
+      -- the iterator of the `Deref` slice: double-ended, exact size; the deque is not changed
+      match IterScriptText.parseScript script, s.deref with
+      | none, _ => (st, ["bad-op"])
+      | some _, none => ({ st with cur := none }, ["panic"])
+      | some steps, some v => (st, both (IterScriptText.scriptObs (v.map toString) steps true))
     | _ =>
       match parseCmd ws, parseZCmd ws with
       | some c, _ =>
